@@ -811,7 +811,13 @@ def run_case(spec):
         instrument(routing, rec_r)
         run_recorded(routing, c, data, rec_r, True)
         snap['fm4'] = list(data.final_mapping)
-        snap['pi'] = list(rec_r.pi)
+        # a routing pass that returns without running its forward pass (an
+        # 'already routed' shortcut) leaves no recorded assignment: the
+        # assignment is then the one routing starts from, the identity; the
+        # direct oracles decide whether skipping was right
+        snap['pi'] = list(rec_r.pi) if rec_r.pi is not None \
+            else list(range(c.num_qudits))
+        res['no_forward_pass'] = rec_r.pi is None
         routed_texts = [tab.op_text(op) for op in c]
         stage = 'apply'
         asyncio.run(ApplyPlacement().run(c, data))
@@ -1141,6 +1147,43 @@ def gen_specs(rng, thorough):
         fam = FAMILIES[i % len(FAMILIES)]
         s = mk(n, N, random_connected_graph(rng, N, fam), nops=rng.randint(3, 24))
         s['family'] = fam
+        specs.append(s)
+    # (B') round 4 (seeded C09-4): circuits that already FIT the machine under the identity
+    # numbering (every interaction is a machine edge between qudits < n) on machines larger than
+    # the circuit, placed by the greedy / custom placement somewhere else: a pass that judges
+    # "already routed" against the whole machine instead of the placed sub-graph must not skip
+    for i in range(cnt(1200 if thorough else 90)):
+        N = rng.randint(5, 10)
+        n = rng.randint(3, min(N - 1, 6))
+        fam = FAMILIES[i % len(FAMILIES)]
+        es = random_connected_graph(rng, N, fam)
+        inner = [(a, b) for a, b in es if a < n and b < n]
+        if len(inner) < 2:
+            continue
+        ops = []
+        for _ in range(rng.randint(3, 12)):
+            a, b = rng.choice(inner)
+            ops.append(('2', [a, b] if rng.random() < 0.5 else [b, a]))
+            if rng.random() < 0.3:
+                ops.append(('1', [rng.randrange(n)]))
+        s = mk(n, N, es, nops=len(ops), kinds='12', radix=2, partition=None,
+               placement=rng.choice(['greedy', 'custom', 'custom']),
+               layout=rng.choice([None, None, 1]))
+        s['ops'] = ops
+        s['family'] = 'prefit-' + fam
+        if s['placement'] == 'custom' and 'custom_placement' not in s:
+            verts = [rng.randrange(N)]
+            while len(verts) < n:
+                cand = sorted({b if a in verts else a for a, b in es
+                               if (a in verts) != (b in verts)})
+                if not cand:
+                    break
+                verts.append(rng.choice(cand))
+            rng.shuffle(verts)
+            if len(verts) == n:
+                s['custom_placement'] = verts
+            else:
+                s['placement'] = 'greedy'
         specs.append(s)
     # (C) operations on 4 and 5 qudits on sparse machines (where four or five qudits are rarely
     # connected): wide gates, entangling blocks at unsorted locations, partitioned blocks
